@@ -162,9 +162,11 @@ func (te *tableEngine) createPlayerGameAction(playerID string, playerIdx int, ac
 		Chips:         chips,
 	}
 
-	if te.table.State.GameState != nil {
-		pga.GameID = te.table.State.GameState.GameID
-		pga.Round = te.table.State.GameState.Status.Round
+	// read the hand state once: this is also called from per-hand callbacks that run on
+	// their own goroutine and may be scheduled while the hand is being reset
+	if gs := te.table.State.GameState; gs != nil {
+		pga.GameID = gs.GameID
+		pga.Round = gs.Status.Round
 	}
 
 	if playerIdx < len(te.table.State.PlayerStates) {
